@@ -50,6 +50,19 @@ class FS:
         self.contents = []
         self.writes = []  # (name, mode, data)
         self.opened = []
+        self.dirs = []  # directories created through the vfs layer
+        self.removed = []
+
+    def is_link(self, i):
+        return isinstance(self.contents[i], Link)
+
+    def add_symlink(self, name, target):
+        self.add(name, Link(target))
+
+    def open_over(self, name, mode, base, append=False):
+        """Writable file over existing content (no truncation): r+ / a / os.open without O_TRUNC."""
+        self.opened.append((name, mode))
+        return _WFile(self, name, mode, base=base, append=append)
 
     def _find(self, name):
         name = _norm_name(name)
@@ -112,6 +125,13 @@ def _norm_name(name):
     return name
 
 
+class Link:
+    """Symbolic link entry of the in-memory file system."""
+
+    def __init__(self, target):
+        self.target = target
+
+
 class _RFile:
     def __init__(self, data):
         self.data = data
@@ -144,11 +164,13 @@ class _RFile:
 
 
 class _WFile:
-    def __init__(self, fs, name, mode):
+    def __init__(self, fs, name, mode, base=None, append=False):
         self.fs = fs
         self.name = _norm_name(name)
         self.mode = mode
         self.parts = []
+        self.base = base  # existing content that is overwritten in place from offset 0 (append: kept in front)
+        self.append = append
 
     def write(self, d):
         if "b" in self.mode:
@@ -178,6 +200,16 @@ class _WFile:
             data = ""
             for p in self.parts:
                 data = data + p
+        if self.base is not None:
+            base = self.base
+            if isinstance(base, str) and "b" in self.mode:
+                base = base.encode("utf-8")
+            if isinstance(base, (bytes, bytearray)) and "b" not in self.mode:
+                base = bytes(base).decode("utf-8")
+            if self.append:
+                data = base + data
+            elif len(data) < len(base):
+                data = data + base[len(data) :]
         self.fs.writes.append((self.name, self.mode, data))
         self.fs.add(self.name, data)
         self.parts = None
